@@ -74,7 +74,7 @@ PROPS = {
     'C17': dict(workload='C17', oracle=['C17'], project=proj_identity,
                 quick=['std-lax', 'std-strict'], thorough=list(CONFIGS)),
     'C15': dict(miri=True, workload='C15', oracle=['C15'], project=proj_identity,
-                quick=['std-lax'], thorough=['std-lax', 'nostd-lax']),
+                quick=['std-lax', 'nostd-lax'], thorough=['std-lax', 'nostd-lax']),
     'C16': dict(workload='C16', oracle=['C16'], project=proj_kind_msg,
                 quick=['std-lax', 'std-strict', 'nostd-lax'], thorough=list(CONFIGS)),
 }
@@ -520,23 +520,24 @@ def miri_step(pid, stats, violations, build_errors):
     """C15: the real `[T; N]` decoder under Miri (every N in a list, every failure position, error and
     panic mode, zero-sized elements, truncated input).  Supports the correspondence only: Miri explores the
     sampled executions for undefined behaviour and leaks; it is not a proof."""
-    env = dict(os.environ, CARGO_TARGET_DIR=os.path.join(ROOT, '.build', 'target-miri'), CARGO_NET_OFFLINE='true')
-    t = time.time()
-    rc, out = run(['cargo', '+nightly', 'miri', 'run'], cwd=os.path.join(ROOT, 'miri'), env=env, timeout=1800)
-    cases = [l for l in out.splitlines() if l.startswith('case ')]
-    stats['miri'] = dict(exit=rc, executions=len(cases), wall_s=round(time.time() - t, 1))
-    stats['oracle_checks'] += len(cases)
-    if rc == 0 and 'guard-miri: ok' in out:
-        log('%s miri: %d executions of the array decoder, no undefined behaviour, no leak' % (pid, len(cases)))
-        return
-    if 'Undefined Behavior' in out or 'panicked' in out or 'memory leaked' in out or 'assertion' in out:
-        last = cases[-1] if cases else 'case ?'
-        m = re.search(r'error: (Undefined Behavior[^\n]*|memory leaked[^\n]*)', out)
-        why = m.group(1) if m else (out.strip().splitlines() or ['?'])[-1]
-        violations.append(('miri', 'guard ' + last, 'under Miri: %s' % why[:400], 'impl-violates-property'))
-        stats['oracle_failures'] += 1
-    else:
-        build_errors.append(('miri', out[-2000:]))
+    for crate, target in (('miri', 'target-miri'), ('miri-nostd', 'target-miri-nostd')):
+        env = dict(os.environ, CARGO_TARGET_DIR=os.path.join(ROOT, '.build', target), CARGO_NET_OFFLINE='true')
+        t = time.time()
+        rc, out = run(['cargo', '+nightly', 'miri', 'run'], cwd=os.path.join(ROOT, crate), env=env, timeout=1800)
+        cases = [l for l in out.splitlines() if l.startswith('case ')]
+        stats[crate] = dict(exit=rc, executions=len(cases), wall_s=round(time.time() - t, 1))
+        stats['oracle_checks'] += len(cases)
+        if rc == 0 and 'guard-miri: ok' in out:
+            log('%s %s: %d executions of the array decoder, no undefined behaviour, no leak' % (pid, crate, len(cases)))
+            continue
+        if 'Undefined Behavior' in out or 'panicked' in out or 'memory leaked' in out or 'assertion' in out:
+            last = cases[-1] if cases else 'case ?'
+            m = re.search(r'error: (Undefined Behavior[^\n]*|memory leaked[^\n]*)', out)
+            why = m.group(1) if m else (out.strip().splitlines() or ['?'])[-1]
+            violations.append((crate, 'guard ' + last, 'under Miri: %s' % why[:400], 'impl-violates-property'))
+            stats['oracle_failures'] += 1
+        else:
+            build_errors.append((crate, out[-2000:]))
 
 def finish(pid, tier, seed, spec, proof, stats, distinct, samples, cfgs, t0, violations, knowns, build_errors,
            builds=None, known=None, extra=None):
